@@ -110,6 +110,8 @@ typedef struct {
 static TLS ctx_t CT[NCTX]; static TLS ctx_t *cx;
 static TLS char g_id[128];
 
+/* the options as the caller passed them (the library must not write into the caller's options) */
+static TLS superlu_options_t g_opt0;
 static void opts_json(const superlu_options_t *o)
 {
     double u = o->DiagPivotThresh;
@@ -121,6 +123,11 @@ static void opts_json(const superlu_options_t *o)
     fputs(",\"FillTol\":", OUT); jnum(o->ILU_FillTol);
     fprintf(OUT, ",\"Norm\":%d,\"MILU\":%d}", o->ILU_Norm, o->ILU_MILU);
     fprintf(OUT, ",\"tune\":[%d,%d,%d,%d,%d,%d,%d]", g_tune[1], g_tune[2], g_tune[3], g_tune[4], g_tune[5], g_tune[6], g_tune[7]);
+}
+static void opts_json_same(const ctx_t *c)
+{
+    opts_json(&g_opt0);
+    fprintf(OUT, ",\"opts_same\":%d", memcmp(&g_opt0, &c->opt, sizeof g_opt0) == 0);
 }
 
 /* A as logical triplets [row, col, value] whatever the storage orientation */
@@ -436,6 +443,7 @@ static void call_gssv(void)
     ctx_t *c = cx; snap_t s; ensure_stat(c); take_snap(c, &s);
     c->ledger_mark = slu_v_mark();
     c->info = -9999;
+    memcpy(&g_opt0, &c->opt, sizeof g_opt0);
     FN(gssv)(&c->opt, &c->A, c->perm_c, c->perm_r, &c->L, &c->U, &c->B, &c->stat, &c->info);
     /* L and U exist whenever the factor routine ran to completion (info in 0..n) */
     c->haveL = c->haveU = (c->info >= 0 && c->info <= c->n);
@@ -445,7 +453,7 @@ static void call_gssv(void)
         own(S); own(S->rowind); own(S->rowind_colptr); own(S->nzval); own(S->nzval_colptr); own(S->col_to_sup); own(S->sup_to_col);
         own(Us); own(Us->rowind); own(Us->colptr); own(Us->nzval);
     }
-    common_head("gssv", c); opts_json(&c->opt);
+    common_head("gssv", c); opts_json_same(c);
     fprintf(OUT, ",\"info\":%lld", (long long)c->info);
     snap_json(c, &s);
     jints("perm_c", c->perm_c, c->n); jints("perm_r", c->perm_r, c->m);
@@ -470,6 +478,7 @@ static void call_gssvx(int ilu)
     int hadLU = c->haveL;
     c->tail_dig = tail_digest(c);
     void *work = c->usework ? (void *)c->work : NULL; int_t lwork = c->usework ? (int_t)c->lwork : 0;
+    memcpy(&g_opt0, &c->opt, sizeof g_opt0);
     if (ilu)
         FN(gsisx)(&c->opt, &c->A, c->perm_c, c->perm_r, c->etree, c->equed, c->R, c->C, &c->L, &c->U, work, lwork,
                   &c->B, &c->X, &c->rpg, &c->rcond, &c->Glu, &c->mu, &c->stat, &c->info);
@@ -485,7 +494,7 @@ static void call_gssvx(int ilu)
         c->haveL = c->haveU = done;
     }
     mark_LU_owned(c);
-    common_head(ilu ? "gsisx" : "gssvx", c); opts_json(&c->opt);
+    common_head(ilu ? "gsisx" : "gssvx", c); opts_json_same(c);
     fprintf(OUT, ",\"info\":%lld,\"equed\":\"%c\"", (long long)c->info, c->equed[0] >= 32 && c->equed[0] < 127 && c->equed[0] != '"' && c->equed[0] != '\\' ? c->equed[0] : '?');
     snap_json(c, &s);
     jints("perm_c", c->perm_c, n); jints("perm_r", c->perm_r, c->m); jints("etree", c->etree, n);
@@ -514,13 +523,14 @@ static void call_gstrf(int ilu)
     c->tail_dig = tail_digest(c);
     void *work = c->usework ? (void *)c->work : NULL; int_t lwork = c->usework ? (int_t)c->lwork : 0;
     c->info = -9999;
+    memcpy(&g_opt0, &c->opt, sizeof g_opt0);
     if (ilu) FN(gsitrf)(&c->opt, &AC, sp_ienv(2), sp_ienv(1), c->etree, work, lwork, c->perm_c, c->perm_r, &c->L, &c->U, &c->Glu, &c->stat, &c->info);
     else FN(gstrf)(&c->opt, &AC, sp_ienv(2), sp_ienv(1), c->etree, work, lwork, c->perm_c, c->perm_r, &c->L, &c->U, &c->Glu, &c->stat, &c->info);
     Destroy_CompCol_Permuted(&AC);
     c->haveL = c->haveU = (c->info >= 0 && c->info <= c->n && lwork != -1);
     c->lu_user = c->haveL && lwork > 0;
     mark_LU_owned(c);
-    common_head(ilu ? "gsitrf" : "gstrf", c); opts_json(&c->opt);
+    common_head(ilu ? "gsitrf" : "gstrf", c); opts_json_same(c);
     fprintf(OUT, ",\"info\":%lld", (long long)c->info);
     snap_json(c, &s);
     jints("perm_c", c->perm_c, c->n); jints("perm_r", c->perm_r, c->m); jints("etree", c->etree, c->n);
